@@ -65,6 +65,7 @@ def run(ck, tier):
     _order(ck, p)
     _close(ck, p)
     _fresh(ck, p)
+    _newest_change(ck, p)
 
 
 def _publish(ck, p):
@@ -744,3 +745,38 @@ def docmap_lifetime(ck, p, rule):
 
 def docmap_sites_in(p, f):
     return [(g, b, t, m) for (g, b, t, m) in docmap_sites(p) if g is f]
+
+
+# ---------------------------------------------------------------------------------------------------
+def _newest_change(ck, p):
+    """A didChange can carry several content changes; they are successive states of the document, so the
+    newest text is the LAST entry.  Ordinary clients send one entry, where first and last coincide."""
+    rule = "R-C09-newest"
+    ck.rule(rule, "did_change hands update_document the text of the last entry of params.content_changes (last / rev / rfind / pop ...): the entries of one notification are successive states of the document, and a search from the front (first, find, iter().next(), [0]) picks an older one whenever a client batches its changes")
+    h = handler(p, "did_change")
+    if not ck.anchor(rule, "Backend::did_change", h):
+        return
+    ck.saw(h)
+    pv = Prov(h)
+    ups = [(bi, t) for bi, t in h.calls() if inst_of(t) in UPDATES]
+    if not ups:
+        ck.undecided(rule, "Backend::did_change:newest", h.span, "no call of update_document in did_change")
+        return
+    bi, t = ups[0]
+    text = t["args"][2] if len(t["args"]) > 2 else None
+    roots = arg_roots(h, pv, text) if text else set()
+    names = {last(norm(o[3] or o[2] or "")) for o in roots if o[0] == "call"}
+    fields = arg_fields(pv, text) if text else set()
+    # closures on the way (find(|c| ..)) do not matter; the direction of the search does
+    back = names & {"last", "rfind", "next_back", "pop", "rev", "rposition", "split_last", "last_mut"}
+    front = names & {"first", "find", "next", "nth", "position", "find_map", "split_first", "get", "index", "swap_remove", "remove"}
+    key = "Backend::did_change:newest"
+    from_cc = "content_changes" in fields or any(o[0] == "call" and any("content_changes" in arg_fields(pv, a) for a in h.blocks[o[1]]["t"]["args"]) for o in roots)
+    if not from_cc:
+        ck.undecided(rule, key, h.loc(t["ln"]), "the text handed to update_document is not traced to params.content_changes")
+    elif back:
+        ck.proved(rule, key, h.loc(t["ln"]), "the text comes from the end of content_changes (%s)" % ", ".join(sorted(back)))
+    elif front:
+        ck.refuted(rule, key, h.loc(t["ln"]), "the text handed to update_document is picked from the FRONT of params.content_changes (%s): when a client sends several content changes in one didChange - successive states of the document - the server lints an older state, and the diagnostics it publishes last are not those of the newest text" % ", ".join(sorted(front)))
+    else:
+        ck.undecided(rule, key, h.loc(t["ln"]), "which entry of content_changes is used is not of a recognised form (%s)" % sorted(names)[:6])
